@@ -9,9 +9,11 @@ pub fn edit_distance_min_alloc(
     previous_row: &mut Vec<u8>,
     current_row: &mut Vec<u8>,
 ) -> u8 {
-    // Lengths and distances are kept in `u8` rows: longer inputs do not fit, and
-    // neither does their distance, so report the largest distance there is.
-    if source.len() > 255 || target.len() > 255 {
+    // Lengths and distances are kept in `u8` rows, and the recurrence adds one to
+    // an entry that can be as large as the longer input: inputs of 255 characters
+    // or more do not fit, and neither does their distance, so report the largest
+    // distance there is.
+    if source.len() >= 255 || target.len() >= 255 {
         return u8::MAX;
     }
 
